@@ -421,19 +421,38 @@ func (e *vfeEnv) stop() {
 	e.db.Close()
 }
 
-func vfeUntil(limit time.Duration, cond func() bool) bool {
+// vfeOverloaded reports whether the process currently gets so little CPU
+// that starting a goroutine and a 1 ms sleep take more than 50 ms.
+func vfeOverloaded() bool {
 	t0 := time.Now()
-	d := 20 * time.Microsecond
-	for {
-		if cond() {
-			return true
+	done := make(chan struct{})
+	go func() { close(done) }()
+	<-done
+	time.Sleep(time.Millisecond)
+	return time.Since(t0) > 50*time.Millisecond
+}
+
+// vfeUntil polls cond for at most limit.  A time-out only counts while the
+// machine is responsive: if it is evidently starved the wait is extended (up
+// to 6x), so that a slow machine is not mistaken for code that does not act.
+func vfeUntil(limit time.Duration, cond func() bool) bool {
+	for ext := 0; ; ext++ {
+		t0 := time.Now()
+		d := 20 * time.Microsecond
+		for {
+			if cond() {
+				return true
+			}
+			if time.Since(t0) > limit {
+				break
+			}
+			time.Sleep(d)
+			if d < 2*time.Millisecond {
+				d *= 2
+			}
 		}
-		if time.Since(t0) > limit {
+		if ext >= 5 || !vfeOverloaded() {
 			return false
-		}
-		time.Sleep(d)
-		if d < 2*time.Millisecond {
-			d *= 2
 		}
 	}
 }
@@ -522,12 +541,15 @@ func (e *vfeEnv) exec(a vfeAct) (out vfeAct, conc string) {
 	switch a.Op {
 	case "Connect":
 		ta := e.addr(a.I, a.J)
-		conc = ta.String()
+		// persistent or ordinary outbound peer: same observable contract,
+		// different disconnect path in outboundPeerConnected / peerState map
+		perm := e.rng.Intn(3) == 0
+		conc = fmt.Sprintf("%s permanent=%v", ta, perm)
 		e.mu.Lock()
 		e.slots[a.P-1] = nil
 		e.dialSlot, e.dialI, e.dialJ = a.P, a.I, a.J
 		e.mu.Unlock()
-		e.s.connManager.Connect(&connmgr.ConnReq{Addr: ta, Permanent: false})
+		e.s.connManager.Connect(&connmgr.ConnReq{Addr: ta, Permanent: perm})
 		c := e.conn(a.P)
 		if c == nil {
 			out.Res = "nodial"
@@ -626,7 +648,28 @@ func (e *vfeEnv) exec(a vfeAct) (out vfeAct, conc string) {
 	return
 }
 
+// vfeRunPath runs a path; a path on which some step did not complete within
+// the bounds ("hang") is re-run, and if that persists it is reported as a
+// machinery error: C13 is not a termination property, so a hang is never a
+// verdict here (the goroutine dump is kept in the step).
 func vfeRunPath(p vfePathIn, scratch string, seed int64) (out vfePathOut) {
+	for try := 0; try < 3; try++ {
+		out = vfeRunOnce(p, scratch, seed)
+		hung := false
+		for _, st := range out.Steps {
+			hung = hung || st.Act.Res == "hang"
+		}
+		if !hung {
+			return out
+		}
+	}
+	if out.Error == "" {
+		out.Error = "a step did not complete within its bound on 3 attempts (see the goroutine dump in the trace)"
+	}
+	return out
+}
+
+func vfeRunOnce(p vfePathIn, scratch string, seed int64) (out vfePathOut) {
 	out.ID = p.ID
 	pseed := seed*1000003 + int64(p.ID)
 	if p.PSeed != nil {
